@@ -854,6 +854,7 @@ func main() {
 	n := flag.Int("cases", 1500, "number of generated (random) cases")
 	grid := flag.Int("grid", 12, "api mode: exhaustive grid bound for balance, shares, amount")
 	sgrid := flag.Int("slashgrid", 6, "api mode: exhaustive grid bound for the slash cases")
+	blocks := flag.Int("blocks", 24, "muxdebond mode: blocks per history")
 	mode := flag.String("mode", "api", "api | seq | debond")
 	out := flag.String("out", "", "output directory")
 	replay := flag.String("replay", "", "replay a case description (JSON file)")
@@ -881,7 +882,21 @@ func main() {
 		if err := json.Unmarshal(raw, &probe); err != nil {
 			panic(err)
 		}
-		if _, ok := probe["dops"]; ok {
+		if _, ok := probe["gseed"]; ok {
+			var c MCase
+			if err := json.Unmarshal(raw, &c); err != nil {
+				panic(err)
+			}
+			muxMode(*seed, 0, 0, *out, []MCase{c})
+			return
+		} else if _, ok := probe["rk"]; ok {
+			var c RCase
+			if err := json.Unmarshal(raw, &c); err != nil {
+				panic(err)
+			}
+			rewardMode(*seed, 0, *out, []RCase{c})
+			return
+		} else if _, ok := probe["dops"]; ok {
 			var c DCase
 			if err := json.Unmarshal(raw, &c); err != nil {
 				panic(err)
@@ -986,6 +1001,10 @@ func main() {
 		sum.Write(*out)
 	case "debond":
 		debondMode(*seed, *n, *out, nil)
+	case "reward":
+		rewardMode(*seed, *n, *out, nil)
+	case "muxdebond":
+		muxMode(*seed, *n, *blocks, *out, nil)
 	default:
 		fmt.Fprintln(os.Stderr, "unknown mode")
 		os.Exit(2)
